@@ -17,7 +17,7 @@ RULE = ("histories of add_edge / add_edges_from / remove_edge / update_vertex_nu
 ASSUMPTIONS = ["networkx is trusted for the to_networkx/from_networkx comparison",
                "a refused insertion is expected to raise an exception (any type) on the three mutable classes"]
 REQUIRED = ["ops_applied", "view_comparisons", "invariant_evaluations", "refusals_observed",
-            "networkx_round_trips", "removals_effective", "vertex_growths_effective", "dag_flag_flips"]
+            "networkx_round_trips", "removals_effective", "vertex_growths_effective", "dag_flag_flips", "old_view_rereads"]
 EXHAUSTIVE_SUBSPACES = {
     "quick": ["all histories of length <= 2 over the operation alphabet with vertex arguments 0..n+1 for n = 2,3 (Graph, DirectedGraph), (L,R) in {(2,2),(1,3)} (BipartiteGraph)"],
     "thorough": ["all histories of length <= 3 over the same alphabets"]}
@@ -365,11 +365,31 @@ def run_history(ctx, kind, start, ops):
     if not compare(ctx, G, S, where + " (initial)"):
         return
     done = []
+    old_views = [(0, G.edges())]            # view objects handed out earlier must keep showing the current graph
     for op in ops:
         done.append(op)
         w = "%s after %r" % (where, done)
         apply(ctx, G, S, op, w)
         if not compare(ctx, G, S, w):
+            break
+        if len(done) in (1, 3, 7):
+            old_views.append((len(done), G.edges()))
+        stale = False
+        for born, view in old_views:
+            ctx.count("old_view_rereads")
+            _Busy.depth += 1
+            try:
+                got = [tuple(e) for e in view]
+                ln = len(view)
+            finally:
+                _Busy.depth -= 1
+            if got != S.edges() or ln != len(S.edges()):
+                ctx.violation("%s:edge-view-obtained-earlier-is-stale" % kind,
+                              "%s: the edges() view obtained after step %d lists %r (len %d), the graph has %r"
+                              % (w, born, got[:12], ln, S.edges()[:12]))
+                stale = True
+                break
+        if stale:
             break
     else:
         finish(ctx, G, S, "%s after %r" % (where, done))
@@ -421,9 +441,20 @@ def random_op(r, kind, S):
             return ("remove_edge", pick(), pick())
         if kind == "simple" and x < 0.30:
             return ("update_vertex_number", r.choice([-2, 0, n, n + 1, n + 2, r.randint(0, n + 3)]))
-        if x < 0.40:
+        if x < 0.34:
             k = r.randint(0, 4)
             return ("add_edges_from", [(pick(), pick()) for _ in range(k)])
+        if x < 0.40 and n >= 2:
+            # a long batch, not in increasing order, possibly with an invalid pair somewhere after valid ones
+            k = r.randint(20, 70)
+            batch = []
+            for _ in range(k):
+                u, v = r.randint(1, n), r.randint(1, n)
+                if u != v or kind == "digraph":
+                    batch.append((u, v))
+            if r.random() < 0.6 and batch:
+                batch.insert(r.randint(len(batch) // 2, len(batch)), (r.randint(1, n), n + 1 + r.randint(0, 1)))
+            return ("add_edges_from", batch)
         if S.E and r.random() < 0.15:
             u, v = r.choice(sorted(S.E))        # duplicate insertion, possibly flipped
             return ("add_edge", v, u) if r.random() < 0.5 else ("add_edge", u, v)
@@ -499,7 +530,7 @@ def workload(tier, seed):
             for first in range(nops):
                 yield "enumerated", {"kind": kind, "start": start, "length": length, "first": first}
     starts = []
-    for n in range(0, 7):
+    for n in list(range(0, 7)) + [9, 12]:
         starts += [("simple", ["Graph", n]), ("digraph", ["DirectedGraph", n])]
     starts += [("simple", ["complete", 4]), ("simple", ["star", 3]), ("simple", ["empty", 5]),
                ("simple", ["null", 0])]
